@@ -67,6 +67,7 @@ pub const GRAPHS: &[&[(&str, &[&str])]] = &[
     &[("Main", &["Aa", "Bb"]), ("Aa", &[]), ("Bb", &[])],
     &[("Main", &["Bb"]), ("Bb", &["Aa"]), ("Aa", &[])],
     &[("Main", &["Aa", "Bb"]), ("Bb", &["Aa"]), ("Aa", &[])],
+    &[("Main", &["Aa", "Bb"]), ("Aa", &["Cc"]), ("Bb", &["Cc"]), ("Cc", &[])],
 ];
 
 pub struct World {
@@ -464,6 +465,28 @@ pub fn main(args: &util::Args) {
             ops.push(tagged("link", order.iter().map(|p| a(*p)).collect()));
             run_history(&format!("cat:core:{}", k), g, &ops, &dir.join("w"), &mut out);
             k += 1;
+        }
+    }
+    // staleness catalogue: after an interface edit of P and a rebuild of P, rebuild EVERY subset of the
+    // other packages (in dependency order) and link everything: only the full set of dependents helps
+    for (gi, g) in GRAPHS.iter().enumerate() {
+        let order = topo(g);
+        for (pi, p) in order.iter().enumerate() {
+            let others: Vec<&'static str> = order.iter().filter(|q| *q != p).cloned().collect();
+            for mask in 0..(1u32 << others.len()) {
+                let mut ops: Vec<S> = order.iter().map(|q| tagged("build", vec![a(*q)])).collect();
+                ops.push(tagged("edit-iface", vec![a(*p), n(1 + (mask as usize + pi) % (IFACE_VARIANTS - 1))]));
+                ops.push(tagged("build", vec![a(*p)]));
+                for (k, q) in others.iter().enumerate() {
+                    if mask & (1 << k) != 0 {
+                        ops.push(tagged("build", vec![a(*q)]));
+                    }
+                }
+                // link inputs in both orders: the verdict must not depend on it
+                ops.push(tagged("link", order.iter().map(|q| a(*q)).collect()));
+                ops.push(tagged("link", order.iter().rev().map(|q| a(*q)).collect()));
+                run_history(&format!("cat:stale:{}:{}:{}", gi, p, mask), g, &ops, &dir.join("w"), &mut out);
+            }
         }
     }
     // every interface variant changes the hash; returning to a variant restores it
